@@ -70,6 +70,25 @@ type Task struct {
 	prio   int
 	// Origin is the site of the go statement (or pool submission) that created the task.
 	Origin string
+	// sleepUntil: the task is not scheduled before this step while any other task is runnable
+	// (seeded delay injected at selects and task starts: lets several select cases become
+	// ready, lets a new goroutine lose the race against everything it was started alongside)
+	sleepUntil int
+}
+
+// Drowse delays the calling task for a drawn number of scheduler steps with a small drawn
+// probability. Called by the sim-controlled select and at task start.
+func (s *Sched) drowse(t *Task, kind string) {
+	if s.DelayPermille == 0 || t == nil || t.noPark > 0 {
+		return
+	}
+	if s.C.ChooseBiased(2, s.DelayPermille*2, "delay:"+kind) == 1 {
+		n := delaySteps(s.C)
+		s.mu.Lock()
+		t.sleepUntil = s.steps + n
+		s.mu.Unlock()
+		Probe("delayed-" + kind)
+	}
 }
 
 // Violation is a property violation or infrastructure problem found during a run.
@@ -127,6 +146,8 @@ type Sched struct {
 	Strategy  int
 	chgPerMil int
 	lowPrio   int
+	// DelayPermille: probability (per mille) of a seeded delay at a select / task start
+	DelayPermille int
 
 	// OnStep, if set, runs on the scheduler goroutine before every decision (all tasks
 	// quiescent). Used for invariants and for step-indexed fault injection.
@@ -285,6 +306,7 @@ func (s *Sched) newTask(parent *Task, proc *Proc) *Task {
 
 // InitStrategy draws the scheduling strategy of this run from the choice stream.
 func (s *Sched) InitStrategy() {
+	s.DelayPermille = []int{0, 10, 40}[s.C.Choose(3, "delay-rate")]
 	switch s.C.Choose(4, "strategy") {
 	case 0:
 		s.C.SwitchPermille = 300
@@ -370,6 +392,13 @@ func (s *Sched) startTask(t *Task, site string, f func()) {
 	}()
 }
 
+// Drowse is the exported hook for sim-controlled blocking points.
+func Drowse(kind string) {
+	if s := S; s != nil {
+		s.drowse(cur(), kind)
+	}
+}
+
 func (s *Sched) finish(t *Task) {
 	if r := recover(); r != nil {
 		stack := string(debug.Stack())
@@ -420,6 +449,10 @@ func Go(site string, f func()) {
 	}
 	t := s.newTask(parent, nil)
 	t.Origin = site
+	if s.DelayPermille > 0 && s.C.ChooseBiased(2, s.DelayPermille, "delay:start") == 1 {
+		t.sleepUntil = s.steps + delaySteps(s.C)
+		Probe("delayed-start")
+	}
 	if dbg := debugLowPrio; dbg != "" && strings.Contains(site, dbg) {
 		t.prio = -1 << 30
 	}
@@ -639,11 +672,18 @@ func (s *Sched) compact() {
 
 // runnableLocked: index 0 is the task that ran last (if runnable), then creation order.
 func (s *Sched) runnableLocked() []*Task {
-	var out []*Task
+	var out, sleepy []*Task
 	for _, t := range s.tasks {
 		if t.state == stParked || (t.state == stLockWait && t.lockOK) {
-			out = append(out, t)
+			if t.sleepUntil > s.steps {
+				sleepy = append(sleepy, t)
+			} else {
+				out = append(out, t)
+			}
 		}
+	}
+	if len(out) == 0 {
+		out = sleepy // nothing else can run: delayed tasks run after all
 	}
 	sort.SliceStable(out, func(i, j int) bool { return out[i].seq < out[j].seq })
 	if s.last != nil {
@@ -750,4 +790,11 @@ func (s *Sched) Aborted() bool {
 	s.mu.Lock()
 	defer s.mu.Unlock()
 	return s.aborted
+}
+
+// delaySteps draws a delay on a logarithmic scale: runs range from tens to hundreds of
+// thousands of steps.
+func delaySteps(c *Choices) int {
+	scale := []int{30, 300, 3000, 30000}[c.Choose(4, "delay-scale")]
+	return 1 + c.Choose(scale, "delay-steps")
 }
